@@ -101,6 +101,7 @@ fn main() {
     let progress_path = args[2].clone();
     let out_path = args[3].clone();
     let start: usize = args.get(4).and_then(|s| s.parse().ok()).unwrap_or(0);
+    let measure = args.get(5).map(|s| s == "measure").unwrap_or(false);
     // default 2 MiB thread stack: what a user calling Regex::new on a spawned thread has
     let h = std::thread::Builder::new()
         .stack_size(2 << 20)
@@ -121,6 +122,14 @@ fn main() {
                 let peak = PEAK.load(Relaxed).saturating_sub(base);
                 let allocs = COUNT.load(Relaxed) - c0;
                 summary.note(i, input, &r, peak, MAXREQ.load(Relaxed), allocs);
+                if measure {
+                    let outcome = match &r.out {
+                        frmon::c06::CompileOut::Ok { vm } => format!("ok vm={}", vm),
+                        frmon::c06::CompileOut::Err { kind, .. } => format!("err {}", kind),
+                        frmon::c06::CompileOut::Panic(_) => "panic".to_string(),
+                    };
+                    let _ = writeln!(out, "{}", serde_json::json!({"measure": {"input": input, "peak": peak, "allocs": allocs, "outcome": outcome}}));
+                }
                 if let Some(v) = r.violation() {
                     let _ = writeln!(out, "{}", serde_json::json!({"violation": v, "index": i, "input": input}));
                     let _ = out.flush();
